@@ -86,8 +86,10 @@ struct C12 : Prop {
 			bool adv = false;
 			for (int k = 0; k < n; k++) {
 				std::vector<uint8_t> bytes;
+				const char *inj = "adversarial-crc-valid-packet";
 				uint64_t x = r.below(100);
 				if (x < 15) {
+					inj = "line-noise";
 					size_t len = (size_t) r.range(1, r.chance(150) ? 700 : 60);
 					bool no_delim = r.chance(300);
 					for (size_t i = 0; i < len; i++) { uint8_t b = r.byte(); if (no_delim && b == 0xFE) b = 0x11; bytes.push_back(b); }
@@ -101,24 +103,24 @@ struct C12 : Prop {
 					bytes = ref::frame_msgs(ms);
 					size_t pos = 1 + (size_t) r.below(bytes.size() - 2);
 					switch (r.below(5)) {
-						case 0: bytes[pos] ^= (uint8_t) (1u << r.below(8)); break;
-						case 1: bytes.erase(bytes.begin() + (long) pos); break;
-						case 2: bytes.insert(bytes.begin() + (long) pos, r.byte()); break;
-						case 3: bytes.resize(pos); break;
-						case 4: bytes.insert(bytes.begin() + (long) pos, 0xFE); break;
+						case 0: bytes[pos] ^= (uint8_t) (1u << r.below(8)); inj = "bit-flip"; break;
+						case 1: bytes.erase(bytes.begin() + (long) pos); inj = "byte-dropped"; break;
+						case 2: bytes.insert(bytes.begin() + (long) pos, r.byte()); inj = "byte-inserted"; break;
+						case 3: bytes.resize(pos); inj = "truncated"; break;
+						case 4: bytes.insert(bytes.begin() + (long) pos, 0xFE); inj = "stray-delimiter"; break;
 					}
 				} else if (x < 42) {
 					// oversized CRC-valid frame
 					std::vector<uint8_t> p;
 					size_t len = (size_t) r.range(250, 600);
 					for (size_t i = 0; i < len; i++) p.push_back((uint8_t) r.range(1, 250));
-					bytes = ref::frame(p); adv = true;
+					bytes = ref::frame(p); adv = true; inj = "oversized-frame";
 				} else {
 					bytes = ref::frame(adversarial_payload(r, normal, addrs)); adv = true;
 				}
 				J e = J::obj();
 				t += (int) r.range(0, 3000);
-				e.set("at_us", t); e.set("raw", hex_of(bytes));
+				e.set("at_us", t); e.set("raw", hex_of(bytes)); e.set("inj", inj);
 				if (r.chance(250)) e.set("gap_us", (int) r.range(1, 2000));
 				if (r.chance(250) && bytes.size() > 1) { e.set("split_at", (int) r.below(bytes.size())); e.set("split_gap_us", (int) r.range(1000, 20000)); }
 				ev.push(e);
